@@ -8,14 +8,15 @@ def build(ck):
     return {"h_c17": ck.harness("h_c17", SRC, wraps=vlib.STD_WRAPS + ["open"])}
 
 
-RULE = ("all histories of free choices on a private copy of the dependency graph main.c -> a.h -> b.h, main.c inherits base.c (-> c.h) [and base2.c], main.c calls a simul_efun; "
+RULE = ("all histories of free choices on a private copy of the dependency graph main.c -> a.h -> b.h, main.c inherits base.c (-> c.h) which inherits deep.c [and base2.c], main.c calls a simul_efun; "
         "part A: all 2^6 program variants {string switch, int-range switch, class, function literals, #pragma save_types, second inherit} x histories of depth D over "
-        "{load+save, load, edit(main.c|a.h|b.h|base.c|c.h), delete(main.b|base.b)}; part B: variants {all features, none} x histories of depth D over the 36-op alphabet that adds "
+        "{load+save, load, reload(main only), failed load of an unrelated file that does not compile, edit(main.c|a.h|b.h|base.c|c.h|deep.c), delete(main.b|base.b)}; part B: variants {all features, none} x histories of depth D over the 38-op alphabet that adds "
         "touch(f), mtime(f) earlier/equal/later than main.b for the five sources, mtime(main.b) far earlier/later, mtime(base.b) earlier/equal/later than main.b, "
         "touch(simul_efun.c)+restart stamp, bump(driver_id); every load starts from an empty object table (as after a restart); explicit utimensat times + virtual clock. "
         "Oracle at every load and after every history: reference staleness predicate on what the open() log shows was used; loaded program (and its inherits) dump == dump of a "
         "compile of the current sources with binaries disabled; results of run(a,s) on 6 argument pairs and of two failing calls (error text, file, line, trace) equal. "
-        "Canonical state for merging: step, variant, content version and time-stamp rank of every file, existence / rank / built-from versions of every binary, stamp changes")
+        "Canonical state for merging: step, variant, content version and time-stamp rank of every file, existence / rank / built-from versions of every binary, stamp changes, "
+        "whether the previous operation was a failed compile")
 
 ASSUMPTIONS = ["a binary counts as used when its .b file was opened and its source file was not opened during the load",
                "'restart' for the simul_efun stamp is init_binaries() called again (the simul_efun object itself is not reloaded)",
@@ -27,10 +28,10 @@ def run(ck):
     quick = ck.tier == "quick"
     dA, dB = (3, 3) if quick else (4, 4)
     for v in (63, 0):
-        ck.explore(exe, ["--prog=%d" % v, "--depth=%d" % dB], "B%d-p%02d" % (dB, v), budget=0, deadline_s=70 if quick else 900, timeout_ms=30000, jobs=16)
-    ck.explore(exe, ["--prog=-1", "--depth=%d" % (dA - 1), "--ops-full=0"], "A%d-all64" % (dA - 1), budget=0, deadline_s=60 if quick else 300, timeout_ms=30000, jobs=16)
+        ck.explore(exe, ["--prog=%d" % v, "--depth=%d" % dB], "B%d-p%02d" % (dB, v), budget=0, deadline_s=50 if quick else 900, timeout_ms=30000, jobs=16)
+    ck.explore(exe, ["--prog=-1", "--depth=%d" % (dA - 1), "--ops-full=0"], "A%d-all64" % (dA - 1), budget=0, deadline_s=45 if quick else 300, timeout_ms=30000, jobs=16)
     # one level deeper for all 64 variants: completes when the machine is free, otherwise reports how far it got
-    ck.explore(exe, ["--prog=-1", "--depth=%d" % dA, "--ops-full=0"], "A%d-all64" % dA, budget=0, deadline_s=70 if quick else 1000, timeout_ms=30000, jobs=16)
+    ck.explore(exe, ["--prog=-1", "--depth=%d" % dA, "--ops-full=0"], "A%d-all64" % dA, budget=0, deadline_s=50 if quick else 1000, timeout_ms=30000, jobs=16)
     ck.finish(vlib.mc_coverage(ck.parts, RULE.replace("depth D", "depth %d complete, %d as far as the deadline allows (part A) / depth %d (part B)" % (dA - 1, dA, dB)),
                                extra={"loads_compared_with_fresh_compile": sum(p.get("counters", {}).get("loads_compared_with_fresh_compile", 0) for p in ck.parts),
                                       "binaries_used": sum(p.get("counters", {}).get("binaries_used", 0) for p in ck.parts)}),
